@@ -54,7 +54,7 @@ def cells_of(c):
 
 def mk(name, **kw):
     c = dict(name=name, seqs=2, capacity=3, maxbatch=3, w=0, pad=1, maskpad=1, shift=True,
-             permv=False, layers=2, nodes=16)
+             permv=False, layers=2, nodes=16, wrap=False)
     c.update(kw)
     c["cells"] = cells_of(c)
     return c
@@ -68,16 +68,19 @@ CONFIGS = [
     mk("swa2", w=2, capacity=8, maxbatch=2),
     mk("three", seqs=3, capacity=2, layers=1),
     mk("permv", permv=True, capacity=4, maxbatch=4, layers=1, nodes=28),
+    # WrapperCache(SWA(1), Causal): the generator works with the causal member's capacity
+    mk("wrap1", wrap=True, w=1, capacity=3, gen_w=0, gen_cells=6),
+    mk("wrap2", wrap=True, w=2, capacity=4, maxbatch=2, gen_w=0, gen_cells=8, layers=1),
 ]
 
 
 def constants(c, maxops, overfull=True, maxbatch=None, asis=False):
     return {
         "SeqIds": vf.tla_set(range(c["seqs"])),
-        "Cells": c["cells"],
+        "Cells": c.get("gen_cells", c["cells"]),
         "MaxBatch": maxbatch or min(c["maxbatch"], 3),
         "MaxOps": maxops,
-        "Window": c["w"],
+        "Window": c.get("gen_w", c["w"]),
         "CanShift": vf.tla_bool(c["shift"]),
         "Overfull": vf.tla_bool(overfull),
         "CodeAsIs": vf.tla_bool(asis),
